@@ -321,7 +321,12 @@ def run(ctx):
         if a[0] == "ok":
             res.count("extract_base_interactions-compared")
             idx = index_map(rs, m)
-            got = sorted((idx.get((p.nt1.label, p.nt1.auth)), idx.get((p.nt2.label, p.nt2.auth)), p.lw.value) for p in a[1].basePairs)
+            raw = [(idx.get((p.nt1.label, p.nt1.auth)), idx.get((p.nt2.label, p.nt2.auth)), p.lw.value) for p in a[1].basePairs]
+            if any(x is None or y is None for x, y, _ in raw):
+                res.fail("spec", "C03:participant-not-in-model", {"family": tag, "model": m, "residues": dump_residues(rs), "observe": "extract_base_interactions"},
+                         "extract_base_interactions names participants that are not residues of the analysed model")
+                continue
+            got = sorted(raw)
             if got != sorted(reals[k][1]) and not reals[k][2]:
                 res.fail("corr", "C03:extract-vs-find_pairs", {"family": tag, "model": m, "residues": dump_residues(rs)},
                          "extract_base_interactions does not hand on the base pairs of find_pairs")
